@@ -31,11 +31,12 @@ import vcommon as V, circ, designgen as G
 CID = "C10"
 WORK = V.BUILD / "work" / CID
 HANDS = ["h_mem_rmw", "h_mem_condwrite", "h_mem_multi", "h_retime_enable", "h_retime_hint", "h_negreg",
-         "h_hier_partition", "h_hier_entity", "h_multiclock", "h_fifo", "h_dcfifo", "h_wide_logic"]
+         "h_hier_partition", "h_hier_entity", "h_small_hier", "h_multiclock", "h_fifo", "h_dcfifo", "h_wide_logic"]
 OMODES = ["single", "entity", "partition"]
 TOOLS = ["default", "ghdl", "vivado", "quartus"]
 KNOWN_PARTITION = "partition-file-order"
 MAX_CERT_INPUT_BITS = 8
+MAX_CERT_REG_BITS = 12
 # files whose content is (only) a list of source files in the order of AST::getSourceFiles()
 LISTFILES = ("files.txt", "files_sim.txt", "export/standalone.txt", "export/project.txt")
 
@@ -121,6 +122,22 @@ def only_line_order_differs(a, b):
     except OSError:
         return False
     return la == lb
+
+
+def net_stats(netfile):
+    """(nodes, register bits, number of distinct clocks that drive registers) of a dump"""
+    n = r = 0
+    clocks = set()
+    try:
+        for line in open(netfile):
+            p = line.split()
+            if len(p) > 7 and p[0] == "N" and p[2] == "reg":     # N <id> reg <w> <rsttype> <activehigh> <resetvalue> <clock id> | ...
+                r += int(p[3]); clocks.add(p[7])
+            if p and p[0] == "N":
+                n += 1
+    except (OSError, ValueError):
+        return (10 ** 6, 10 ** 6, 10 ** 6)
+    return (n, r, len(clocks))
 
 
 def input_bits(tracefile):
@@ -238,6 +255,7 @@ def main():
     viol = []          # (kind, design, treeA, treeB, file, firstdiff)
     known_hits = []
     files_compared = 0
+    both_skipped = 0
     skipped = []
     netdump_differs = 0
     addr_changed = {b: 0 for b in builds}
@@ -266,6 +284,12 @@ def main():
             if ("SKIP" in rt) != ("SKIP" in bt):
                 viol.append(("design could be constructed in one build only", d, ref, b, "SKIP", dict(a=rt.get("SKIP"), b=bt.get("SKIP"))))
                 continue
+            if "SKIP" in rt:
+                # the export threw in both constructions: only the reason is compared, what had been written before is not a result
+                both_skipped += 1
+                if rt["SKIP"] != bt["SKIP"]:
+                    viol.append(("construction fails with different errors", d, ref, b, "SKIP", first_diff(str(out / ref / d / "SKIP"), str(bd / "SKIP"))))
+                continue
             names = sorted(set(rt) | set(bt))
             for n in names:
                 files_compared += 1
@@ -281,7 +305,7 @@ def main():
                     continue
                 fd = first_diff(str(out / ref / d / n), str(bd / n))
                 pm = [l.split()[1] for l in prog_of.get(d, []) if l.startswith("omode ")]
-                is_part = (pm and pm[0] == "partition") or d == "h_hier_partition"
+                is_part = (pm and pm[0] == "partition") or d in ("h_hier_partition", "h_small_hier")
                 if is_part and n in LISTFILES and only_line_order_differs(str(out / ref / d / n), str(bd / n)):
                     known_hits.append((d, b, n, fd))
                     continue
@@ -313,6 +337,7 @@ def main():
     lines = []
     cert_pairs = {}
     cert_skipped_wide = 0
+    model_skipped_multiclock = 0
     if driver:
         nets = WORK / "nets"
         if nets.exists():
@@ -327,14 +352,21 @@ def main():
             tr = out / ref / d / "sim.trace"
             cmds.append(f"tie {a} {tr}")
             ibits = input_bits(tr)
+            nn, rbits, nclk = net_stats(out / ref / d / "post.net")
+            if nclk > 1:
+                model_skipped_multiclock += 1     # NetDefs models one clock: neither tie nor certificate
+                cmds.pop()
+                continue
+            # cost of one model evaluation grows with nodes^2 (measured 1.7 ms at 190 nodes): bound the time per certificate
+            bud = max(2000, min(budget, (4 if thorough else 1) * 400000000 // max(1, nn * nn)))
             for s in shuffled:
                 if not (out / s / d / "post.net").exists():
                     continue
                 b = nets / f"{d}.{s.split('.')[1]}.net"
                 os.symlink(out / s / d / "post.net", b)
                 cmds.append(f"tie {b} {out / s / d / 'sim.trace'}")
-                if ibits <= MAX_CERT_INPUT_BITS:      # the checker enumerates all 3^bits input vectors
-                    cmds.append(f"cert strict {a} {b} {tr} {budget}")
+                if ibits <= MAX_CERT_INPUT_BITS and rbits <= MAX_CERT_REG_BITS:      # the checker enumerates all 3^bits input vectors
+                    cmds.append(f"cert strict {a} {b} {tr} {bud}")
                     cert_pairs[(a.name, b.name)] = (d, s)
                 else:
                     cert_skipped_wide += 1
@@ -432,7 +464,8 @@ def main():
     rep.cov["certificates_rejected_by_checker"] = len(cert_rej)
     rep.cov["certificates_too_big"] = len(cert_big)
     rep.cov["certificates_unsupported"] = len(cert_uns)
-    rep.cov["certificates_not_attempted_more_than_8_input_bits"] = cert_skipped_wide
+    rep.cov["certificates_not_attempted_more_than_8_input_or_12_register_bits"] = cert_skipped_wide
+    rep.cov["designs_outside_single_clock_model_multiclock_or_memory"] = model_skipped_multiclock
     rep.cov["disagreements_checked"] = len(cert_fail)
     rep.cov["wall_s_harness_processes"] = round(t_run, 1)
     sd = designs[0]
